@@ -3,6 +3,8 @@
 import numpy as np
 from hypothesis import strategies as st
 
+from ..core import sampled_from  # noqa: E402
+
 from .. import build, datagen, meshgen
 from ..core import Failure
 
@@ -32,7 +34,7 @@ NP = {"mean": np.mean, "min": np.min, "max": np.max, "median": np.median, "std":
 @st.composite
 def _case(draw, tier):
     big = tier != "quick"
-    kind = draw(st.sampled_from(["any", "any", "gap", "subdiv"]))
+    kind = draw(sampled_from(["any", "any", "gap", "subdiv"]))
     if kind == "gap":
         # size gaps (e.g. triangles + pentagons, no quads): merge aggressively
         mesh = draw(meshgen.hull_mesh(6, 40 if big else 22, partial=True))
@@ -41,20 +43,20 @@ def _case(draw, tier):
         if kind == "subdiv":
             mesh = meshgen.subdivide_edges(draw, mesh)
     n_node = len(mesh["nodes"])
-    mode = draw(st.sampled_from(["agg", "agg", "agg", "agg", "unsupported"]))
+    mode = draw(sampled_from(["agg", "agg", "agg", "agg", "unsupported"]))
     c = {
         "mesh": mesh,
-        "extra_width": draw(st.sampled_from([0, 0, 1])),
+        "extra_width": draw(sampled_from([0, 0, 1])),
         "mode": mode,
-        "aggs": draw(st.lists(st.sampled_from(AGGS), min_size=1, max_size=4, unique=True)),
-        "dest": draw(st.sampled_from(["face", "edge"])),
-        "then_subset": draw(st.sampled_from([None, None, True])) and draw(st.lists(st.integers(0, 200), min_size=1, max_size=10)),
+        "aggs": draw(st.lists(sampled_from(AGGS), min_size=1, max_size=4, unique=True)),
+        "dest": draw(sampled_from(["face", "edge"])),
+        "then_subset": draw(sampled_from([None, None, True])) and draw(st.lists(st.integers(0, 200), min_size=1, max_size=10)),
     }
     if mode == "agg":
         c["data"] = draw(datagen.data_spec(n_node, vmax=3))
     else:
-        c["src"] = draw(st.sampled_from(["face", "edge", "node"]))
-        c["bad_dest"] = draw(st.sampled_from(["node", "face", "edge", None, "cell"]))
+        c["src"] = draw(sampled_from(["face", "edge", "node"]))
+        c["bad_dest"] = draw(sampled_from(["node", "face", "edge", None, "cell"]))
         c["data"] = {"lead": [], "dtype": "float64", "scale": 8, "vmax": 3, "values": None, "seed": draw(st.integers(0, 999))}
     return c
 
